@@ -112,7 +112,10 @@ ASBUILT = {
   carrying the same edits: same outcome class, bit-identical result tables; repeat on the same object bit-identical; heat-only
   calls are issued only on a stored hydraulics / sequential solution of the present description and compared with a
   sequential run; for the outcome class the fresh object first gets the history object's most recent hydraulic-capable call
-  (that is what exposes a stale flag). **Found and fixed:** NaN `outer_diameter_mm` overwritten in the user's table (the
+  (that is what exposes a stale flag). A third of the hydraulic-capable calls uses `only_update_hydraulic_matrix`, half of those
+  with `reuse_internal_data`; edits include flipping a pipe (a restorable change of the matrix structure). A call that itself asks
+  for reuse after a structural edit gets what it asked for and is not judged; every call that does not ask for reuse must be
+  independent of what an earlier call cached (added after seeded change R3_C12). **Found and fixed:** NaN `outer_diameter_mm` overwritten in the user's table (the
   default of `create_pipe_from_parameters`), stale `hyd_flag` after a failed run.""",
 "C13": """* **As built (`props/c13.py`):** ConstControl profiles on sinks, sources and consumers over 4-8 steps, infeasible steps (x1e5),
   full / subset / shuffled `time_steps`, with and without `continue_on_divergence`, hydraulics and sequential. All stand-alone
